@@ -56,13 +56,14 @@ def c15_jobs(rng, quick, nhist, nenc):
     # repeat block: diverse inputs (the class pairs/triples, punctuation pairs and mode-switch texts of the Aztec and PDF417 generators, where an
     # encoder search can meet cost ties), each encoded several times within one history - identical arguments must give identical barcodes every time
     h = nhist
-    rep_jobs = [j for j in C03.az_jobs(rng, True) if len(j["content"]) <= 40 and j["p"][1] == 0] + [j for j in C04.pdf_jobs(rng, True) if len(j["content"]) <= 30]
-    rep_jobs = rng.sample(rep_jobs, min(len(rep_jobs), 260 if quick else 1500))
+    az = sorted((j for j in C03.az_jobs(rng, True) if len(j["content"]) <= 24 and j["p"][1] == 0), key=lambda j: len(j["content"]))
+    pdf = sorted((j for j in C04.pdf_jobs(rng, True) if len(j["content"]) <= 16), key=lambda j: len(j["content"]))
+    rep_jobs = az[:900 if quick else 3000] + pdf[:200 if quick else 600]
+    nsub = 8 if quick else 16                      # several shorter histories (validated in parallel), each with its own inputs
     for rnd in range(5 if quick else 8):
-        for j in rep_jobs:
+        for k, j in enumerate(rep_jobs):
             hid += 1
-            jj = dict(j, hid=hid, proj="digest", hist=h, skey="")
-            jobs.append(jj)
+            jobs.append(dict(j, hid=hid, proj="digest", hist=h + (k % nsub), skey=""))
     return jobs
 
 
@@ -90,7 +91,7 @@ def run(tier):
     rng = chk.rng
     nhist, nenc = (3, 250) if quick else (30, 900)
     jobs = c15_jobs(rng, quick, nhist, nenc)
-    nhist += 1
+    nhist += 8 if quick else 16
     # mutation pass needs event indices: run once to learn which aztec encodes succeeded (inputs only), then run the full history in a fresh process
     probe = vlib.run_drive(drive, jobs, chk.work, name="probe")
     full = jobs + add_mutations(probe, jobs)
